@@ -50,7 +50,21 @@
        declaration (in front of the next declaration or of the end of the text) and the white space in
        front of the first token of the text (cursor not at index 0: known finding C16-text-start): exactly
        the four declaration starters, no `main` snippet (a valid program declares main).
-       ([C16_toplevel] above is the statement for all documents.) *)
+       ([C16_toplevel] above is the statement for all documents.)
+
+   PROVED in addition, for every DOCUMENT WITHOUT DIAGNOSTICS (third part of this file; Proofs/CompleteFeatures.v):
+   by the COMPLETENESS of the front end (Proofs/CompleteFront.v [front_end_complete]) a document d that
+   AnalyzedSource::new builds from t, whose errors() is empty and none of whose tokens carries a lexical error
+   ([clean_doc t d] of Spec/Nav.v; lexical errors are attached to tokens and never published, hence the third
+   condition) is the document of a layout of a well-typed abstract program:
+     C16_clean_doc_is_valid    every such document satisfies the hypotheses of the *_valid theorems above, for some
+                               derivation p of its token vector and G = its table;
+     C16_clean_doc_layout      ... and for EVERY derivation p of its token vector in the grammar;
+     C16_statement_position_clean, C16_nested_statement_position_clean, C16_type_position_clean,
+     C16_type_decl_position_clean, C16_toplevel_position_clean, C16_toplevel_start_clean
+                               the position theorems restated with [clean_doc t d] in place of the hypotheses on
+                               G / lex / new_doc_res: p is any derivation of the document's token vector (it only
+                               serves to describe the position), the table is the document's. *)
 From Coq Require Import List PeanoNat.
 From Spl Require Import Model.Completion Proofs.CompletionProofs.
 From Spl Require Import Spec.Grammar Spec.Typing.
@@ -440,3 +454,120 @@ Example C16_valid_examples_eval :
   /\ option_map (map fst) (cx_answer 3 31) = Some [s_int; sx_v]
   /\ map (fun c => option_map (map snd) (cx_answer 0 c)) [9; 22]%N = [Some [15; 14; 22; 22]; Some [15; 14; 22; 22]]%N.
 Proof. vm_compute. repeat split; reflexivity. Qed.
+
+(* ========================================================================================== *)
+(* DOCUMENTS WITHOUT DIAGNOSTICS: the same theorems through the completeness of the front end   *)
+(* (Proofs/CompleteFront.v, Proofs/CompleteFeatures.v)                                          *)
+From Spl Require Import Spec.Nav Proofs.CompleteFront Proofs.CompleteFeatures.
+
+(* every document without diagnostics satisfies the hypotheses of the *_valid theorems *)
+Theorem C16_clean_doc_is_valid : forall (t : text) (d : doc), clean_doc t d ->
+  exists p G, prog_ok p = true /\ well_typed (expected p) G /\ lex t = Some (d_toks d) /\
+              map tk (d_toks d) = flatten p ++ [Eof] /\ d_ast d = expected p /\ d_table d = G.
+Proof. exact clean_doc_valid. Qed.
+Print Assumptions C16_clean_doc_is_valid.
+
+(* ... with EVERY derivation of its token vector *)
+Theorem C16_clean_doc_layout : forall (t : text) (d : doc) (p : aprog),
+  clean_doc t d -> prog_ok p = true -> map tk (d_toks d) = flatten p ++ [Eof] ->
+  well_typed (expected p) (d_table d) /\ lex t = Some (d_toks d) /\ new_doc_res t = ODone d /\ d_ast d = expected p.
+Proof. exact clean_doc_layout. Qed.
+Print Assumptions C16_clean_doc_layout.
+
+Theorem C16_statement_position_clean : forall (t : text) (d : doc) (p : aprog),
+  clean_doc t d -> prog_ok p = true -> map tk (d_toks d) = flatten p ++ [Eof] ->
+  forall l1 c1 c2 x c3 ps c4 c5 vs1 vs2 b1 b2 c6 l2,
+    a_decls p = l1 ++ DProc c1 c2 x c3 ps c4 c5 (vs1 ++ vs2) (sapp b1 b2) c6 :: l2 ->
+    (vs2 = [] \/ b1 = SNil) ->
+    let j := (length (flat_map fl_decl l1) + length (proc_head c1 c2 x c3 ps c4 c5)
+              + length (flat_map fl_vardecl vs1) + length (fl_stmts b1))%nat in
+    forall tprev tnext line col,
+      nth_error (d_toks d) (j - 1) = Some tprev -> nth_error (d_toks d) j = Some tnext ->
+      (te tprev < get_insertion_index line col t)%N -> (get_insertion_index line col t <= ts tnext)%N ->
+      exists pe items,
+        lookup (d_table d) x = Some (GProcE pe) /\
+        map fst (pe_local pe) = aparams_names ps ++ map v_x (vs1 ++ vs2) /\
+        propose d line col = ROk (Some items) /\
+        items = (if has_real b1 then [] else [snip_var; item_var]) ++ new_stmt (Some (pe_local pe)) (d_table d) /\
+        filter is_var items = search_variables (pe_local pe) /\
+        filter is_fun items = search_procedures (d_table d) /\
+        filter is_struct items = [].
+Proof. exact propose_statement_position_clean. Qed.
+Print Assumptions C16_statement_position_clean.
+
+Theorem C16_nested_statement_position_clean : forall (t : text) (d : doc) (p : aprog),
+  clean_doc t d -> prog_ok p = true -> map tk (d_toks d) = flatten p ++ [Eof] ->
+  forall l1 c1 c2 x c3 ps c4 c5 vs b1 s b2 c6 l2 g,
+    a_decls p = l1 ++ DProc c1 c2 x c3 ps c4 c5 vs (sapp b1 (SCons s b2)) c6 :: l2 ->
+    sgap s g ->
+    let j := (length (flat_map fl_decl l1) + length (proc_head c1 c2 x c3 ps c4 c5)
+              + length (flat_map fl_vardecl vs) + length (fl_stmts b1) + g)%nat in
+    forall tprev tnext line col,
+      nth_error (d_toks d) (j - 1) = Some tprev -> nth_error (d_toks d) j = Some tnext ->
+      (te tprev < get_insertion_index line col t)%N -> (get_insertion_index line col t <= ts tnext)%N ->
+      exists pe pre items,
+        lookup (d_table d) x = Some (GProcE pe) /\
+        map fst (pe_local pe) = aparams_names ps ++ map v_x vs /\
+        propose d line col = ROk (Some items) /\
+        items = pre ++ new_stmt (Some (pe_local pe)) (d_table d) /\ else_or_not pre /\
+        filter is_var items = search_variables (pe_local pe) /\
+        filter is_fun items = search_procedures (d_table d) /\
+        filter is_struct items = [].
+Proof. exact propose_nested_statement_position_clean. Qed.
+Print Assumptions C16_nested_statement_position_clean.
+
+Theorem C16_type_position_clean : forall (t : text) (d : doc) (p : aprog),
+  clean_doc t d -> prog_ok p = true -> map tk (d_toks d) = flatten p ++ [Eof] ->
+  forall l1 c1 c2 x c3 ps c4 c5 vs b c6 l2,
+    a_decls p = l1 ++ DProc c1 c2 x c3 ps c4 c5 vs b c6 :: l2 ->
+    let D := length (flat_map fl_decl l1) in
+    forall k tprev tnext line col,
+      (D <= k)%nat -> (S k < D + length (fl_decl (DProc c1 c2 x c3 ps c4 c5 vs b c6)))%nat ->
+      nth_error (d_toks d) k = Some tprev -> tk tprev = Colon \/ tk tprev = KOf -> nth_error (d_toks d) (S k) = Some tnext ->
+      (te tprev < get_insertion_index line col t)%N -> (get_insertion_index line col t <= ts tnext)%N ->
+      propose d line col = ROk (Some (search_types (d_table d))).
+Proof. exact propose_type_position_clean. Qed.
+Print Assumptions C16_type_position_clean.
+
+Theorem C16_type_decl_position_clean : forall (t : text) (d : doc) (p : aprog),
+  clean_doc t d -> prog_ok p = true -> map tk (d_toks d) = flatten p ++ [Eof] ->
+  forall l1 c1 c2 x c3 ty c4 l2,
+    a_decls p = l1 ++ DType c1 c2 x c3 ty c4 :: l2 ->
+    let D := length (flat_map fl_decl l1) in
+    forall k tprev tnext line col,
+      (D <= k)%nat -> (S k < D + length (fl_decl (DType c1 c2 x c3 ty c4)))%nat ->
+      nth_error (d_toks d) k = Some tprev -> nth_error (d_toks d) (S k) = Some tnext ->
+      (te tprev < get_insertion_index line col t)%N -> (get_insertion_index line col t <= ts tnext)%N ->
+      propose d line col =
+        ROk (match tk tprev with
+             | RBracket => Some [item_of]
+             | EqT | KOf => Some ([snip_array; item_array] ++ search_types (d_table d))
+             | _ => None
+             end).
+Proof. exact propose_type_decl_position_clean. Qed.
+Print Assumptions C16_type_decl_position_clean.
+
+Theorem C16_toplevel_position_clean : forall (t : text) (d : doc) (p : aprog),
+  clean_doc t d -> prog_ok p = true -> map tk (d_toks d) = flatten p ++ [Eof] ->
+  forall l1 l2, a_decls p = l1 ++ l2 ->
+    let j := length (flat_map fl_decl l1) in
+    forall tprev tnext line col,
+      (1 <= j)%nat -> nth_error (d_toks d) (j - 1) = Some tprev -> nth_error (d_toks d) j = Some tnext ->
+      (te tprev < get_insertion_index line col t)%N -> (get_insertion_index line col t <= ts tnext)%N ->
+      propose d line col = ROk (Some [snip_proc; snip_type; item_proc; item_type]).
+Proof. exact propose_toplevel_position_clean. Qed.
+Print Assumptions C16_toplevel_position_clean.
+
+(* no derivation needed to describe this position *)
+Theorem C16_toplevel_start_clean : forall (t : text) (d : doc),
+  clean_doc t d ->
+  forall tnext line col,
+    nth_error (d_toks d) 0 = Some tnext ->
+    (0 < get_insertion_index line col t)%N -> (get_insertion_index line col t <= ts tnext)%N ->
+    propose d line col = ROk (Some [snip_proc; snip_type; item_proc; item_type]).
+Proof. exact propose_toplevel_start_clean. Qed.
+Print Assumptions C16_toplevel_start_clean.
+
+(* non-vacuity: the two example texts of this file are documents without diagnostics (decided by evaluation) *)
+Example C16_clean_ex : is_clean c16_text = true /\ is_clean cx_text = true.
+Proof. vm_compute. split; reflexivity. Qed.
